@@ -195,6 +195,8 @@ fn run_tree(b: &Bad, control: bool, probe: &Probe) -> (String, Outcome) {
     };
     if let Some(f) = &fake {
         run = run.env("BLOCKWATCH_AI_API_URL", &f.url()).env("BLOCKWATCH_AI_MODEL", "m");
+        // the OpenAI SDK's own variables must not stand in for a missing BLOCKWATCH_AI_API_KEY
+        run = run.env("OPENAI_API_KEY", "sk-ambient-foreign");
         match (b.special.as_str(), control) {
             ("ai-nokey", false) => {}
             ("ai-emptykey", false) => run = run.env("BLOCKWATCH_AI_API_KEY", ""),
